@@ -17,8 +17,8 @@ PY
   WT=/tmp/seedwt
   [ -d "$WT" ] || git -C /repo worktree add -q --detach "$WT" HEAD
   git -C "$WT" checkout -q --detach "$(git -C /repo rev-parse HEAD)"; git -C "$WT" checkout -q -- .
-  if ! git -C "$WT" apply --check "$d/patch.diff" 2>/dev/null; then echo "$n: PATCH-DOES-NOT-APPLY"; continue; fi
-  git -C "$WT" apply "$d/patch.diff"
+  if ! git -C "$WT" apply --check "/verif/$d/patch.diff" 2>/dev/null; then echo "$n: PATCH-DOES-NOT-APPLY"; continue; fi
+  git -C "$WT" apply "/verif/$d/patch.diff"
   res=""
   for i in $ids; do
     out=$(VERIF_REPO="$WT" ./check "$i" 2>&1)
